@@ -21,6 +21,8 @@ pub enum Corruption {
     Overwrite { page: u8, start: u16, len: u8, seed: u64 },
     /// store the page's checksum bytes in reversed (little-endian) order
     ChecksumReversed { page: u8 },
+    /// overwrite the last `pages` whole pages (payload and checksum) with zeros
+    ZeroTail { pages: u8 },
 }
 
 #[derive(Clone, Serialize, Deserialize)]
@@ -83,6 +85,14 @@ pub fn apply(bytes: &[u8], c: &Corruption) -> (Vec<u8>, bool) {
                 }
             }
             (b, true)
+        }
+        Corruption::ZeroTail { pages: k } => {
+            let k = (*k as usize % pages).max(1).min(pages.saturating_sub(1).max(1));
+            let start = b.len() - k * 1024;
+            for x in &mut b[start..] {
+                *x = 0;
+            }
+            (b, false)
         }
         Corruption::ChecksumReversed { page } => {
             let base = (*page as usize % pages) * 1024;
@@ -191,7 +201,43 @@ pub fn backend_digest(seed: u64, n: u32) -> String {
             acc = mix(acc, (v as u64) << 1 | o as u64);
         }
     }
+    // page-count sweep: files of exactly k pages (block-size boundaries of bulk validators), intact and with one bit flipped
+    // in the first, a middle and the last page
+    for k in [1usize, 2, 3, 31, 32, 33, 63, 64, 65, 127, 128, 129, 256] {
+        let (file, _) = odd_page_file(1024, k * 1020 - 48);
+        let pages = file.len() / 1024;
+        let mut verdicts = 0u64;
+        let ok = guard(|| E57Reader::validate_crc(MemDev::with_data(file.clone())).is_ok()).unwrap_or(false);
+        verdicts = verdicts << 1 | ok as u64;
+        for pg in [0, pages / 2, pages - 1] {
+            let mut b = file.clone();
+            b[pg * 1024 + 500] ^= 4;
+            let ok = guard(|| E57Reader::validate_crc(MemDev::with_data(b.clone())).is_ok()).unwrap_or(false);
+            verdicts = verdicts << 1 | ok as u64;
+        }
+        acc = mix(acc, (pages as u64) << 8 | verdicts);
+        files += 1;
+    }
     format!("{acc:016x} files={files}")
+}
+
+/// The page-count sweep of the backend digest, asserted against ground truth in this process.
+fn page_count_sweep() -> Result<(), String> {
+    for k in [1usize, 2, 3, 31, 32, 33, 63, 64, 65, 127, 128, 129, 256] {
+        let (file, _) = odd_page_file(1024, k * 1020 - 48);
+        let pages = file.len() / 1024;
+        if guard(|| E57Reader::validate_crc(MemDev::with_data(file.clone())).is_ok()).map_err(|p| format!("validate_crc panicked: {p}"))? != true {
+            return Err(format!("validate_crc rejects an intact file of {pages} pages"));
+        }
+        for pg in [0, pages / 2, pages - 1] {
+            let mut b = file.clone();
+            b[pg * 1024 + 500] ^= 4;
+            if guard(|| E57Reader::validate_crc(MemDev::with_data(b.clone())).is_ok()).map_err(|p| format!("validate_crc panicked: {p}"))? {
+                return Err(format!("validate_crc accepts a file of {pages} pages with a flipped bit in page {pg}"));
+            }
+        }
+    }
+    Ok(())
 }
 
 fn other_backend() -> String {
@@ -206,13 +252,14 @@ impl Check for C07 {
     }
     fn rule() -> String {
         "Small files (a few pages) from the writer generator x corruptions: EVERY single-bit flip of every page of enumerated files (exhaustive per \
-         page, payload and checksum bytes alike), sampled 2- and 3-bit flips within a page, bursts of <= 32 bits, random overwrites of 1..64 bytes, checksum bytes stored in reversed order. \
+         page, payload and checksum bytes alike), sampled 2- and 3-bit flips within a page, bursts of <= 32 bits, random overwrites of 1..64 bytes, checksum bytes stored in reversed order, whole trailing pages zeroed. \
          Ground truth per page is e57ref's bit-serial CRC-32C (so an overwrite that leaves a page valid is handled soundly). Assertions: freshly \
          written pages carry the big-endian CRC-32C of their payload; validate_crc fails iff >= 1 page is altered; <= 3-bit flips and <= 32-bit \
          bursts are always detected; after opening the altered file every read operation (XML, descriptors, raw + simple iteration of every cloud, \
          every blob), run twice on the same reader (second round after earlier failures), fails or returns exactly the baseline result (iterators: \
          a prefix of the baseline then an error). Both CRC backends: a second binary built with the crc32c cargo feature must produce a \
-         byte-identical digest of files and verdicts. Files with page sizes other than 1024 (60..65536, payload not a multiple of 4 included), \
+         byte-identical digest of files and verdicts (generated programs with corruptions, plus a sweep over files of exactly \
+         1..256 pages around powers of two with a bit flipped in the first / middle / last page). Files with page sizes other than 1024 (60..65536, payload not a multiple of 4 included), \
          sealed by e57ref: validate_crc accepts them and returns the page size, raw_xml returns the XML, and both react correctly to bit flips. evaluations = pages / corruption sets, executions = altered files. Non-trivial: alteration \
          inside a page that a later read operation touches (every page of these files is)."
             .into()
@@ -233,7 +280,7 @@ impl Check for C07 {
             for page in 0..8u8 {
                 out.push(Case::AllBits { program: p.clone(), page });
             }
-            out.push(Case::Sampled { program: p.clone(), corruptions: (0..8u8).map(|page| Corruption::ChecksumReversed { page }).collect() });
+            out.push(Case::Sampled { program: p.clone(), corruptions: (0..8u8).map(|page| Corruption::ChecksumReversed { page }).chain((1..3u8).map(|pages| Corruption::ZeroTail { pages })).collect() });
         }
         out.push(Case::Backends { seed: 7, n: t.pick(300, 5000) as u32 });
         // other page sizes (validate_crc and raw_xml take the page size from the header)
@@ -252,14 +299,15 @@ impl Check for C07 {
         let program = small_program(s);
         let n = 1 + s.below(6) as usize;
         let corruptions = (0..n)
-            .map(|_| match s.weighted(&[4, 3, 3, 1]) {
+            .map(|_| match s.weighted(&[4, 3, 3, 1, 1]) {
                 0 => {
                     let k = 2 + s.below(2) as usize;
                     Corruption::Bits { page: s.byte(), bits: (0..k).map(|_| s.u16()).collect() }
                 }
                 1 => Corruption::Burst { page: s.byte(), start: s.u16(), len: s.byte(), pattern: s.u32() },
                 2 => Corruption::Overwrite { page: s.byte(), start: s.u16(), len: s.byte(), seed: s.u64() },
-                _ => Corruption::ChecksumReversed { page: s.byte() },
+                3 => Corruption::ChecksumReversed { page: s.byte() },
+                _ => Corruption::ZeroTail { pages: 1 + s.below(3) as u8 },
             })
             .collect();
         Case::Sampled { program, corruptions }
@@ -268,6 +316,10 @@ impl Check for C07 {
         let mut v = Verdict::new();
         match case {
             Case::Backends { seed, n } => {
+                if let Err(e) = page_count_sweep() {
+                    v.fail(e);
+                    return v;
+                }
                 let mine = backend_digest(*seed, *n);
                 match std::process::Command::new(other_backend()).args(["c07-digest", &seed.to_string(), &n.to_string()]).output() {
                     Ok(o) if o.status.success() => {
@@ -368,6 +420,7 @@ impl Check for C07 {
                         Corruption::Burst { .. } => v.nt("burst"),
                         Corruption::Overwrite { .. } => v.nt("overwrite"),
                         Corruption::ChecksumReversed { .. } => v.nt("checksum_reversed"),
+                        Corruption::ZeroTail { .. } => v.nt("zeroed_tail_pages"),
                     }
                     if let Err(e) = check_altered(&b, &alt, md, &format!("{c:?}")) {
                         v.fail(e);
